@@ -159,7 +159,10 @@ def get_ast(func):
     except (OSError, IOError):
         return None
     source = inspect.cleandoc('\n' + rawsource)
-    module = ast.parse(source)
+    try:
+        module = ast.parse(source)
+    except SyntaxError:
+        return None
     node = module.body[0]
     if not isinstance(node, (ast.FunctionDef, ast.AsyncFunctionDef)):
         return None
